@@ -614,7 +614,7 @@ def output(out: OutputBuffer, aconf: AuditConf, banner: Optional[Banner], header
     if aconf.json:
         out.reset()
         # Build & write the JSON struct.
-        out.info(json.dumps(build_struct(aconf.host + ":" + str(aconf.port), banner, kex=kex, pkm=pkm, client_host=client_host, software=software, algorithms=algs, algorithm_recommendation_suppress_list=algorithm_recommendation_suppress_list, additional_notes=additional_notes), indent=4 if aconf.json_print_indent else None, sort_keys=True), always_print=True)  # The JSON document is not subject to the minimum output level.
+        out.info(json.dumps(build_struct(("[%s]:%d" if Utils.is_ipv6_address(aconf.host) else "%s:%d") % (aconf.host, aconf.port), banner, kex=kex, pkm=pkm, client_host=client_host, software=software, algorithms=algs, algorithm_recommendation_suppress_list=algorithm_recommendation_suppress_list, additional_notes=additional_notes), indent=4 if aconf.json_print_indent else None, sort_keys=True), always_print=True)  # The JSON document is not subject to the minimum output level.
     elif len(unknown_algorithms) > 0:  # If we encountered any unknown algorithms, ask the user to report them.
         out.warn("\n\n!!! WARNING: unknown algorithm(s) found!: %s.  If this is the latest version of ssh-audit (see <https://github.com/jtesta/ssh-audit/releases>), please create a new Github issue at <https://github.com/jtesta/ssh-audit/issues> with the full output above.\n" % Utils.to_print_ascii(','.join(unknown_algorithms)))
 
@@ -1455,7 +1455,7 @@ def target_worker_thread(host: str, port: int, shared_aconf: AuditConf) -> Tuple
         try:
             json.loads(string_output)
         except ValueError:
-            string_output = json.dumps({"target": "%s:%d" % (host, port), "error": string_output.strip()}, indent=4 if my_aconf.json_print_indent else None, sort_keys=True)
+            string_output = json.dumps({"target": ("[%s]:%d" if Utils.is_ipv6_address(host) else "%s:%d") % (host, port), "error": string_output.strip()}, indent=4 if my_aconf.json_print_indent else None, sort_keys=True)
 
     return ret, string_output
 
